@@ -374,6 +374,60 @@ class ExecGen:
         self.ids += [ibtp_id(f, t, i)]
         self.tags.add("receipt-with-group-scenario")
 
+    def scripted_two_groups_one_block(self):
+        """two (sometimes three) one-to-many transactions of one source chain get their verdict in the SAME block (a failure
+        receipt each, or one fails while the other completes, or a child that cannot begin): the block's multi-tx notifications
+        for that chain must name the children of every one of them, whatever came earlier in the block"""
+        r = self.rng
+        fc = r.choice(["c1", "c2"])
+        srcs = [s for s in SERVICES if s.split(":")[0] == fc and ORDERED[s]]
+        dsts = [s for s in SERVICES if s.split(":")[0] not in (fc, "c3") and ORDERED[s]]
+        ng = r.choice([2, 2, 3])
+        T = r.choice([0, 0, 6, 10])
+        groups = []
+        for _ in range(ng):
+            f = r.choice(srcs)
+            tos = r.sample(dsts, 2)
+            ch = []
+            for t in tos:
+                idx = self.next_req.get((f, t), 1)
+                self.next_req[(f, t)] = idx + 1
+                ch.append((t, idx))
+            g = {"from": f, "children": ch, "T": T, "begun": list(ch)}
+            self.groups.append(g)
+            groups.append(g)
+
+        def blk(txs):
+            self.height += 1
+            self.ops.append("block " + " | ".join(txs) if txs else "block")
+            self.observe()
+
+        def child(g, c):
+            grp = ",".join(f"{tt}={ii}" for tt, ii in g["children"])
+            self.ids.append(ibtp_id(g["from"], c[0], c[1]))
+            return f"ibtp {ADMIN[fc]} {g['from']} {c[0]} {c[1]} req {g['T']} {grp} ok"
+
+        def rcpt(g, c, typ):
+            g.setdefault("reported", {})[c] = typ
+            return f"ibtp {ADMIN[c[0].split(':')[0]]} {g['from']} {c[0]} {c[1]} {typ} 0 - ok"
+        begins = [child(g, c) for g in groups for c in g["children"]]
+        if r.random() < 0.5:
+            blk(begins)
+        else:
+            blk(begins[:len(begins) // 2])
+            blk(begins[len(begins) // 2:])
+        if r.random() < 0.7:
+            blk([rcpt(g, g["children"][0], "ok") for g in groups if r.random() < 0.8])
+        verdicts = []
+        for n, g in enumerate(groups):
+            first_ok = g.get("reported", {}).get(g["children"][0]) == "ok"
+            typ = "fail" if (n == 0 or not first_ok or r.random() < 0.6) else "ok"
+            verdicts.append(rcpt(g, g["children"][1], typ))
+        r.shuffle(verdicts)
+        blk(verdicts)
+        blk([])
+        self.tags.add("two-groups-one-block-scenario")
+
     def scripted_interhub(self):
         """between two BitXHubs: another hub (id 9999, four validators) is registered as a relay chain by governance; a local service
         sends a request with a deadline to a service over there; the other hub's receipt (signed by enough of its validators) arrives
@@ -409,6 +463,9 @@ class ExecGen:
         if self.focus == "single" and 0.8 < k <= 0.9 and not self.hub:
             self.scripted_interhub()
             nblocks = min(nblocks, 4)
+        if self.focus == "group" and k < 0.2 and not self.hub:
+            self.scripted_two_groups_one_block()
+            nblocks = max(3, nblocks - 4)
         if self.focus in ("single", "mixed") and k > 0.9:
             self.scripted_receipt_with_group()
             nblocks = max(nblocks, 7)
